@@ -5,19 +5,16 @@
 
    What is modelled is what the C does (constr_SEQUENCE.c, constr_SEQUENCE_oer.c,
    constr_CHOICE.c, constr_CHOICE_oer.c, per_opentype.c, per_support.c,
-   oer_support.c, oer_decoder.c), with a flag [std]:
-     std = false : the C, deviations included;
-     std = true  : X.690 / X.691 (08/2015) clauses 11.6, 11.9, 19, 23 / X.696 clauses 16, 20, 30.
-   Known deviations of the C (all witnessed in ExtProofs.v and replayed by the tie):
-     - uper_put_nslength: more than 64 additions: the leading 1 bit of X.691
-       11.9.3.4 is not written (the C's own decoder expects it);
-     - uper_put_nsnnwn: index of an extension alternative above 63: the leading
-       1 bit of X.691 11.6.2 is not written (the C's own decoder expects it);
-     - uper_open_type_skip (unknown additions): uper_sot_suck consumes 24 bits at
-       a time, so an unknown addition is skipped only when its encoding has a
-       multiple of 3 octets (or is the single octet 00);
-     - oer_open_type_skip (unknown additions): advances over the length
-       determinant only, not over the contents.
+   oer_support.c, oer_decoder.c).  The flag [std] is the one of the base codec
+   model (Rt/Uper.v) and is only handed down to the components:
+     std = false : the C (semi-constrained INTEGER, CHOICE index of the base layer);
+     std = true  : X.691 (08/2015).
+   The framing of the extensions itself (X.691 clauses 11.2, 11.6, 11.9, 19, 23 /
+   X.696 clauses 16, 20, 30) has one reading: since the repairs of
+   uper_put_nslength, uper_put_nsnnwn (leading 1 bit above 64 additions / above
+   extension alternative index 63), uper_open_type_skip (unknown additions of
+   any size, not only 3n octets) and oer_open_type_skip (the contents is skipped,
+   not only its length determinant) the C is the standard here.
    asn1c makes every extension addition an omissible member (EM_OMITABLE), and
    flattens version brackets [[ ]] into separate additions; an addition is
    therefore a plain type here and its value is VNone / VSome v.
@@ -148,11 +145,11 @@ Definition ext_ber_decode (t : ety) (bs : list Z) : option (eval * Z) :=
 (* ---------------- unaligned PER ---------------- *)
 
 (* X.691 11.9.3.4 normally small length (uper_put_nslength) *)
-Definition nslength (std : bool) (n : Z) : option (list bool) :=
+Definition nslength (n : Z) : option (list bool) :=
   if n <=? 0 then None
   else if n <=? 64 then Some (nbits 7 (n - 1))
-  else if n <=? 127 then Some ((if std then [true] else []) ++ nbits 8 n)
-  else if n <? 16384 then Some ((if std then [true] else []) ++ nbits 16 (n + 32768))
+  else if n <=? 127 then Some ([true] ++ nbits 8 n)
+  else if n <? 16384 then Some ([true] ++ nbits 16 (n + 32768))
   else None.
 
 Definition get_nslength (bs : list bool) : option (Z * list bool) :=
@@ -163,13 +160,13 @@ Definition get_nslength (bs : list bool) : option (Z * list bool) :=
   end.
 
 (* X.691 11.6 normally small non-negative whole number (uper_put_nsnnwn) *)
-Definition nsnnwn (std : bool) (n : Z) : option (list bool) :=
+Definition nsnnwn (n : Z) : option (list bool) :=
   if n <? 0 then None
   else if n <=? 63 then Some (nbits 7 n)
   else
     let k := if n <? 256 then 1 else if n <? 65536 then 2 else if n <? 16777216 then 3 else 0 in
     if k =? 0 then None
-    else Some ((if std then [true] else []) ++ nbits 8 k ++ nbits (Z.to_nat (8 * k)) n).
+    else Some ([true] ++ nbits 8 k ++ nbits (Z.to_nat (8 * k)) n).
 
 Definition get_nsnnwn (bs : list bool) : option (Z * list bool) :=
   match bs with
@@ -206,15 +203,11 @@ Definition uper_open_get (std : bool) (t : ty) (bs : list bool) : option (val * 
   | None => None
   end.
 
-(* uper_open_type_skip through uper_sot_suck: consumes 24 bits at a time and
-   leaves (size mod 3) octets to the padding check of uper_open_type_get_simple *)
-Definition uper_skippable (std : bool) (buf : list Z) : bool :=
-  std || (zlen buf mod 3 =? 0) ||
-  match buf with [b] => b =? 0 | _ => false end.
-
-Definition uper_open_skip (std : bool) (bs : list bool) : option (list bool) :=
+(* uper_open_type_skip: uper_sot_suck consumes the whole contents (24 bits at a
+   time, then the one or two octets left), whatever its size *)
+Definition uper_open_skip (bs : list bool) : option (list bool) :=
   match get_open_bytes bs with
-  | Some (buf, r) => if uper_skippable std buf then Some r else None
+  | Some (_, r) => Some r
   | None => None
   end.
 
@@ -224,7 +217,7 @@ Definition ext_uper (std : bool) (t : ety) (v : eval) : option (list bool) :=
       match enc_members (uper std) root rvs, enc_additions (uper_encode std) open_type adds avs with
       | Some body, Some ots =>
           if existsb is_present avs then
-            match nslength std (zlen adds) with
+            match nslength (zlen adds) with
             | Some nl => Some ([true] ++ presence_bits root rvs ++ body ++ nl ++ map is_present avs ++ ots)
             | None => None
             end
@@ -239,7 +232,7 @@ Definition ext_uper (std : bool) (t : ety) (v : eval) : option (list bool) :=
         end
       else
         let j := (i - length root)%nat in
-        match enc_alt (uper_encode std) v' exts j, nsnnwn std (choice_index (cstd std) exts j) with
+        match enc_alt (uper_encode std) v' exts j, nsnnwn (choice_index (cstd std) exts j) with
         | Some c, Some ix => Some ([true] ++ ix ++ open_type c)
         | _, _ => None
         end
@@ -267,7 +260,7 @@ Definition ext_uper_dec (std : bool) (t : ety) (bs : list bool) : option (eval *
                     | Some (n, r3) =>
                         match take_bits (Z.to_nat n) r3 with
                         | Some (bm, r4) =>
-                            match dec_additions (uper_open_get std) (uper_open_skip std) adds bm r4 with
+                            match dec_additions (uper_open_get std) uper_open_skip adds bm r4 with
                             | Some (avs, r5) => Some (EVSeq rvs avs, r5)
                             | None => None
                             end
@@ -394,16 +387,14 @@ Definition oer_open_get (t : ty) (bs : list Z) : option (val * list Z) :=
   | None => None
   end.
 
-(* oer_open_type_skip returns the size of the length determinant only *)
-Definition oer_open_skip (std : bool) (bs : list Z) : option (list Z) :=
+(* oer_open_type_skip: the length determinant and that many octets *)
+Definition oer_open_skip (bs : list Z) : option (list Z) :=
   match oer_fetch_length bs with
-  | Some (n, r) =>
-      if std then match take n r with Some (_, r') => Some r' | None => None end
-      else Some r
+  | Some (n, r) => match take n r with Some (_, r') => Some r' | None => None end
   | None => None
   end.
 
-Definition ext_oer_dec (std : bool) (t : ety) (bs : list Z) : option (eval * list Z) :=
+Definition ext_oer_dec (t : ety) (bs : list Z) : option (eval * list Z) :=
   match t with
   | ESeq _ root adds =>
       let nopt := length (filter is_opt root) in
@@ -424,7 +415,7 @@ Definition ext_oer_dec (std : bool) (t : ety) (bs : list Z) : option (eval * lis
                             else
                               match take_bits (Z.to_nat (8 * zlen bmo - unused)) (bytes_bits bmo) with
                               | Some (bm, _) =>
-                                  match dec_additions oer_open_get (oer_open_skip std) adds bm r3 with
+                                  match dec_additions oer_open_get oer_open_skip adds bm r3 with
                                   | Some (avs, r4) => Some (EVSeq rvs avs, r4)
                                   | None => None
                                   end
@@ -459,8 +450,8 @@ Definition ext_oer_dec (std : bool) (t : ety) (bs : list Z) : option (eval * lis
       end
   end.
 
-Definition ext_oer_decode (std : bool) (t : ety) (bs : list Z) : option (eval * Z) :=
-  match ext_oer_dec std t bs with
+Definition ext_oer_decode (t : ety) (bs : list Z) : option (eval * Z) :=
+  match ext_oer_dec t bs with
   | Some (v, rest) => Some (v, zlen bs - zlen rest)
   | None => None
   end.
